@@ -40,9 +40,34 @@ Definition Defective : variant := mkVariant false false.   (* fsm.go as it stand
    CBoth = both non-empty (the code then sends the Configure-Reject). *)
 Inductive Cls := CGood | CNak | CRej | CBoth | CMalformed.
 
-(* Input(code, id, data): [cls] abstracts data for ConfReq, [dlen] is len(data). *)
+(* Input(code, id, data): [data] are the bytes after the 4-byte header; [cls] is the handler's answer
+   class when the packet is a Configure-Request (CMalformed iff ParseOptions(data) fails). *)
 Inductive Ev := EUp | EDown | EOpen | EClose | ETimeout
-              | EInput (code id : Z) (cls : Cls) (dlen : Z).
+              | EInput (code id : Z) (cls : Cls) (data : list Z).
+Definition dlen_of (data : list Z) : Z := Z.of_nat (length data).
+
+(* An option (type, data) and func ParseOptions(data []byte) ([]Option, error) *)
+Definition Opt := (Z * list Z)%type.
+Fixpoint parse_opts_fuel (fuel : nat) (data : list Z) (acc : list Opt) : option (list Opt) :=
+  match fuel with
+  | O => Some (rev acc)
+  | S fuel =>
+    match data with
+    | t :: l :: rest =>                                  (* for len(data) >= 2 *)
+        if (l <? 2) || (l >? dlen_of data) then None     (* "invalid option length" *)
+        else let n := Z.to_nat (l - 2) in
+             parse_opts_fuel fuel (skipn n rest) ((t, firstn n rest) :: acc)
+    | _ => Some (rev acc)
+    end
+  end.
+Definition parse_opts (data : list Z) : option (list Opt) := parse_opts_fuel (S (length data)) data [].
+Definition parse_or_nil (data : list Z) : list Opt :=   (* opts, _ := ParseOptions(data) *)
+  match parse_opts data with Some o => o | None => [] end.
+
+(* The calls the FSM makes into its OptionHandler that can change the handler's option state.  The
+   handler's state, and therefore the content of every later Configure-Request (BuildConfReq), is a
+   function of the initial configuration and of this log. *)
+Inductive HCall := HReq (o : list Opt) | HAck (o : list Opt) | HNak (o : list Opt) | HRej (o : list Opt).
 
 (* Observable actions.  Irc/Zrc are the restart-counter actions of the RFC; they are listed so
    that the action list of a step can be compared with the RFC cell (the harness observes them
@@ -63,26 +88,29 @@ Definition default_cfg : cfg := mkCfg 10 2 true.     (* NewFSM: maxConf 10, maxT
 (* type FSM: state, id, restartCount, failCount, lastReqID; timer != nil (and not yet fired) is
    [armed]; [out] accumulates (in reverse) what the callbacks saw during the current event. *)
 Record fsm := mkFsm {
-  st : St; idc : Z; restart : Z; failc : Z; lastReq : Z; armed : bool; out : list Act }.
+  st : St; idc : Z; restart : Z; failc : Z; lastReq : Z; armed : bool; out : list Act;
+  hlog : list HCall                      (* handler calls so far, most recent first *) }.
 
-Definition init : fsm := mkFsm Initial 0 0 0 0 false [].
+Definition init : fsm := mkFsm Initial 0 0 0 0 false [] [].
 
 Definition set_st (s : St) (f : fsm) : fsm :=
-  mkFsm s (idc f) (restart f) (failc f) (lastReq f) (armed f) (out f).
+  mkFsm s (idc f) (restart f) (failc f) (lastReq f) (armed f) (out f) (hlog f).
 Definition set_idc (i : Z) (f : fsm) : fsm :=
-  mkFsm (st f) i (restart f) (failc f) (lastReq f) (armed f) (out f).
+  mkFsm (st f) i (restart f) (failc f) (lastReq f) (armed f) (out f) (hlog f).
 Definition set_restart (r : Z) (f : fsm) : fsm :=
-  mkFsm (st f) (idc f) r (failc f) (lastReq f) (armed f) (out f).
+  mkFsm (st f) (idc f) r (failc f) (lastReq f) (armed f) (out f) (hlog f).
 Definition set_failc (n : Z) (f : fsm) : fsm :=
-  mkFsm (st f) (idc f) (restart f) n (lastReq f) (armed f) (out f).
+  mkFsm (st f) (idc f) (restart f) n (lastReq f) (armed f) (out f) (hlog f).
 Definition set_lastReq (i : Z) (f : fsm) : fsm :=
-  mkFsm (st f) (idc f) (restart f) (failc f) i (armed f) (out f).
+  mkFsm (st f) (idc f) (restart f) (failc f) i (armed f) (out f) (hlog f).
 Definition set_armed (b : bool) (f : fsm) : fsm :=
-  mkFsm (st f) (idc f) (restart f) (failc f) (lastReq f) b (out f).
+  mkFsm (st f) (idc f) (restart f) (failc f) (lastReq f) b (out f) (hlog f).
 Definition emit (a : Act) (f : fsm) : fsm :=
-  mkFsm (st f) (idc f) (restart f) (failc f) (lastReq f) (armed f) (a :: out f).
+  mkFsm (st f) (idc f) (restart f) (failc f) (lastReq f) (armed f) (a :: out f) (hlog f).
+Definition hcall (h : HCall) (f : fsm) : fsm :=
+  mkFsm (st f) (idc f) (restart f) (failc f) (lastReq f) (armed f) (out f) (h :: hlog f).
 Definition clear_out (f : fsm) : fsm :=
-  mkFsm (st f) (idc f) (restart f) (failc f) (lastReq f) (armed f) [].
+  mkFsm (st f) (idc f) (restart f) (failc f) (lastReq f) (armed f) [] (hlog f).
 
 Notation "x |> g" := (g x) (at level 55, left associativity, only parsing).
 
@@ -183,10 +211,11 @@ Definition reply (id : Z) (k : Cls) (sGood sBad : St) (f : fsm) : fsm :=
   else f |> scn id |> set_st sBad.
 
 (* func (f *FSM) rcrEvent(id, data) *)
-Definition rcrEvent (c : cfg) (id : Z) (k : Cls) (f : fsm) : fsm :=
+Definition rcrEvent (c : cfg) (id : Z) (k : Cls) (data : list Z) (f : fsm) : fsm :=
   match k with
   | CMalformed => f                                  (* ParseOptions error: return *)
   | _ =>
+    let f := hcall (HReq (parse_or_nil data)) f in   (* f.handler.ProcessConfReq(opts) *)
     match st f with
     | Closed => sta id f
     | Stopped => f |> irc c |> scr |> reply id k AckSent ReqSent
@@ -202,8 +231,9 @@ Definition rcrEvent (c : cfg) (id : Z) (k : Cls) (f : fsm) : fsm :=
   end.
 
 (* func (f *FSM) rcaEvent(id, data) *)
-Definition rcaEvent (c : cfg) (v : variant) (id : Z) (f : fsm) : fsm :=
+Definition rcaEvent (c : cfg) (v : variant) (id : Z) (data : list Z) (f : fsm) : fsm :=
   if negb (id =? lastReq f) then f else
+  let f := hcall (HAck (parse_or_nil data)) f in     (* f.handler.ProcessConfAck(opts) *)
   match st f with
   | Closed | Stopped => sta id f
   | ReqSent => f |> irc c |> set_st AckRcvd
@@ -216,8 +246,9 @@ Definition rcaEvent (c : cfg) (v : variant) (id : Z) (f : fsm) : fsm :=
   end.
 
 (* func (f *FSM) rcnEvent(id, data, isRej) *)
-Definition rcnEvent (c : cfg) (v : variant) (id : Z) (f : fsm) : fsm :=
+Definition rcnEvent (c : cfg) (v : variant) (id : Z) (data : list Z) (isRej : bool) (f : fsm) : fsm :=
   if negb (id =? lastReq f) then f else
+  let f := hcall (if isRej then HRej (parse_or_nil data) else HNak (parse_or_nil data)) f in
   match st f with
   | Closed | Stopped => sta id f
   | ReqSent => f |> irc c |> scr
@@ -276,8 +307,8 @@ Definition rucEvent (code id : Z) (f : fsm) : fsm :=
   f |> set_idc nid |> emit (Scj nid code id).
 
 (* func (f *FSM) rxrEvent(id, data) *)
-Definition rxrEvent (id dlen : Z) (f : fsm) : fsm :=
-  if st_eqb (st f) Opened && (dlen >=? 4) then emit (Ser id) f else f.
+Definition rxrEvent (id : Z) (data : list Z) (f : fsm) : fsm :=
+  if st_eqb (st f) Opened && (dlen_of data >=? 4) then emit (Ser id) f else f.
 
 (* the codes of protocol.go *)
 Inductive Code := KConfReq | KConfAck | KConfNak | KConfRej | KTermReq | KTermAck | KCodeRej
@@ -292,19 +323,20 @@ Definition code_of (z : Z) : Code :=
 Definition lcp_only (k : Code) : bool :=
   match k with KProtoRej | KEchoReq | KEchoRep | KDiscReq => true | _ => false end.
 
-Definition input (c : cfg) (v : variant) (code id : Z) (k : Cls) (dlen : Z) (f : fsm) : fsm :=
+Definition input (c : cfg) (v : variant) (code id : Z) (k : Cls) (data : list Z) (f : fsm) : fsm :=
   if fix_ncp v && negb (lcp c) && lcp_only (code_of code)
   then rucEvent code id f                                    (* CELL codes 8-11 at an NCP *)
   else
   match code_of code with
-  | KConfReq => rcrEvent c id k f
-  | KConfAck => rcaEvent c v id f
-  | KConfNak | KConfRej => rcnEvent c v id f
+  | KConfReq => rcrEvent c id k data f
+  | KConfAck => rcaEvent c v id data f
+  | KConfNak => rcnEvent c v id data false f
+  | KConfRej => rcnEvent c v id data true f
   | KTermReq => rtrEvent v id f
   | KTermAck => rtaEvent v f
   | KCodeRej => rxjEvent c v f
   | KProtoRej => f
-  | KEchoReq => rxrEvent id dlen f
+  | KEchoReq => rxrEvent id data f
   | KEchoRep | KDiscReq => f
   | KUnknown => rucEvent code id f
   end.
@@ -321,7 +353,7 @@ Definition step (c : cfg) (v : variant) (f : fsm) (e : Ev) : fsm :=
   | EOpen => open c v f
   | EClose => close c f
   | ETimeout => timeout (set_armed false f)
-  | EInput code id k dlen => input c v code id k dlen f
+  | EInput code id k data => input c v code id k data f
   end.
 
 Definition outs (f : fsm) : list Act := rev (out f).
@@ -492,7 +524,7 @@ Definition classify (c : cfg) (f : fsm) (e : Ev) : option REv :=
   match e with
   | EUp => Some RUp | EDown => Some RDown | EOpen => Some ROpen | EClose => Some RClose
   | ETimeout => Some (if restart f >? 0 then RTOp else RTOm)
-  | EInput code id k dlen =>
+  | EInput code id k data =>
     if negb (lcp c) && lcp_only (code_of code) then Some RUC else
     match code_of code with
     | KConfReq => match k with CMalformed => None | CGood => Some RCRp | _ => Some RCRm end
@@ -502,7 +534,7 @@ Definition classify (c : cfg) (f : fsm) (e : Ev) : option REv :=
     | KTermAck => Some RTA
     | KCodeRej => Some RXJm
     | KProtoRej => if st_eqb (st f) Opened then Some RXJp else None
-    | KEchoReq => if dlen >=? 4 then Some RXRq else None
+    | KEchoReq => if dlen_of data >=? 4 then Some RXRq else None
     | KEchoRep | KDiscReq => Some RXRo
     | KUnknown => Some RUC
     end
@@ -656,3 +688,90 @@ Definition is_bad_cell (s : St) (e : REv) : bool :=
 (* what the driver prints for a state *)
 Definition obs (f : fsm) : Z * Z * bool * Z * Z * Z :=
   (st_num (st f), restart f, armed f, lastReq f, idc f, failc f).
+
+(* ------------------------------------------------------------------ Part 4: the real handlers *)
+(* BuildConfReq of lcp.go / ipcp.go / ipv6cp.go as a function of the handler-call log, for the
+   configurations the harness sets up.  Used by the correspondence check to predict the content of
+   every Configure-Request; no theorem depends on these definitions (C05_discarded_invisible is
+   about the log itself, i.e. holds for every handler). *)
+Definition be (l : list Z) : Z := fold_left (fun a b => a * 256 + b) l 0.
+Definition put16 (x : Z) : list Z := [(x / 256) mod 256; x mod 256].
+Definition put32 (x : Z) : list Z := [(x / 16777216) mod 256; (x / 65536) mod 256; (x / 256) mod 256; x mod 256].
+Definition len (l : list Z) : Z := Z.of_nat (length l).
+Definition zmem (x : Z) (l : list Z) : bool := existsb (Z.eqb x) l.
+Definition serialize (o : list Opt) : list Z :=          (* SerializeOptions *)
+  flat_map (fun p => fst p :: ((2 + len (snd p)) mod 256) :: snd p) o.
+
+(* LCP: local MRU, Magic, AuthProto, AuthAlgo, WantAuth, rejected *)
+Record lcp_h := mkLcpH { l_mru : Z; l_magic : Z; l_auth : Z; l_algo : Z; l_want : bool; l_rej : list Z }.
+Definition lcp_ack1 (h : lcp_h) (o : Opt) : lcp_h :=
+  let (t, d) := o in
+  if (t =? 1) && (len d =? 2) then mkLcpH (be d) (l_magic h) (l_auth h) (l_algo h) (l_want h) (l_rej h)
+  else if (t =? 5) && (len d =? 4) then mkLcpH (l_mru h) (be d) (l_auth h) (l_algo h) (l_want h) (l_rej h)
+  else h.
+Definition lcp_nak1 (h : lcp_h) (o : Opt) : lcp_h :=
+  let (t, d) := o in
+  if (t =? 3) && (len d >=? 2)
+  then mkLcpH (l_mru h) (l_magic h) (be (firstn 2 d)) (if len d >? 2 then nth 2 d 0 else l_algo h) (l_want h) (l_rej h)
+  else lcp_ack1 h o.
+Definition lcp_rej1 (h : lcp_h) (o : Opt) : lcp_h :=
+  mkLcpH (l_mru h) (l_magic h) (l_auth h) (l_algo h) (l_want h) (fst o :: l_rej h).
+Definition lcp_call (h : lcp_h) (c : HCall) : lcp_h :=
+  match c with
+  | HReq _ => h                     (* ProcessConfReq writes l.peer only *)
+  | HAck o => fold_left lcp_ack1 o h
+  | HNak o => fold_left lcp_nak1 o h
+  | HRej o => fold_left lcp_rej1 o h
+  end.
+Definition lcp_build (h : lcp_h) : list Opt :=
+  (if zmem 1 (l_rej h) then [] else [(1, put16 (l_mru h))]) ++
+  (if negb (zmem 5 (l_rej h)) && negb (l_magic h =? 0) then [(5, put32 (l_magic h))] else []) ++
+  (if negb (zmem 3 (l_rej h)) && l_want h
+   then [(3, if l_auth h =? 49699 then put16 (l_auth h) ++ [l_algo h mod 256] else put16 (l_auth h))] else []).
+(* harness: NewLCP; SetMagic(0x01020304); SetAuthProto(ProtoCHAP, CHAPMD5) *)
+Definition lcp_h0 : lcp_h := mkLcpH 1492 16909060 49699 5 true [].
+
+(* IPCP: local Address, PrimaryDNS, SecondaryDNS (byte lists), rejected *)
+Record ipcp_h := mkIpcpH { i_addr : list Z; i_dns1 : list Z; i_dns2 : list Z; i_rej : list Z }.
+Definition usable4 (a : list Z) : bool := (len a =? 4) && negb (forallb (Z.eqb 0) a).
+Definition ipcp_set1 (h : ipcp_h) (o : Opt) : ipcp_h :=
+  let (t, d) := o in
+  if negb (len d =? 4) then h
+  else if t =? 3 then mkIpcpH d (i_dns1 h) (i_dns2 h) (i_rej h)
+  else if t =? 129 then mkIpcpH (i_addr h) d (i_dns2 h) (i_rej h)
+  else if t =? 131 then mkIpcpH (i_addr h) (i_dns1 h) d (i_rej h)
+  else h.
+Definition ipcp_call (h : ipcp_h) (c : HCall) : ipcp_h :=
+  match c with
+  | HReq _ => h
+  | HAck o | HNak o => fold_left ipcp_set1 o h
+  | HRej o => mkIpcpH (i_addr h) (i_dns1 h) (i_dns2 h) (map fst o ++ i_rej h)
+  end.
+Definition ipcp_build (h : ipcp_h) : list Opt :=
+  (if negb (zmem 3 (i_rej h)) && usable4 (i_addr h) then [(3, i_addr h)] else []) ++
+  (if negb (zmem 129 (i_rej h)) && usable4 (i_dns1 h) then [(129, i_dns1 h)] else []) ++
+  (if negb (zmem 131 (i_rej h)) && usable4 (i_dns2 h) then [(131, i_dns2 h)] else []).
+(* harness: SetAddress(10.0.0.1); SetDNS(9.9.9.9, 8.8.8.8) *)
+Definition ipcp_h0 : ipcp_h := mkIpcpH [10; 0; 0; 1] [9; 9; 9; 9] [8; 8; 8; 8] [].
+
+(* IPv6CP: local interface identifier, rejected *)
+Record ip6cp_h := mkIp6H { v_iid : list Z; v_rej : list Z }.
+Definition ip6_set1 (h : ip6cp_h) (o : Opt) : ip6cp_h :=
+  let (t, d) := o in if (t =? 1) && (len d =? 8) then mkIp6H d (v_rej h) else h.
+Definition ip6_call (h : ip6cp_h) (c : HCall) : ip6cp_h :=
+  match c with
+  | HReq _ => h
+  | HAck o | HNak o => fold_left ip6_set1 o h
+  | HRej o => mkIp6H (v_iid h) (map fst o ++ v_rej h)
+  end.
+Definition ip6_build (h : ip6cp_h) : list Opt := if zmem 1 (v_rej h) then [] else [(1, v_iid h)].
+Definition ip6_h0 : ip6cp_h := mkIp6H [2; 0; 0; 0; 0; 0; 0; 1] [].
+
+(* content of the Configure-Request a handler of the given kind builds after the calls in [log]
+   (most recent first); kind 0 = mock (constant request), 1 = LCP, 2 = IPCP, 3 = IPv6CP *)
+Definition confreq_content (kind : Z) (log : list HCall) : list Z :=
+  let calls := rev log in
+  if kind =? 1 then serialize (lcp_build (fold_left lcp_call calls lcp_h0))
+  else if kind =? 2 then serialize (ipcp_build (fold_left ipcp_call calls ipcp_h0))
+  else if kind =? 3 then serialize (ip6_build (fold_left ip6_call calls ip6_h0))
+  else [1; 4; 5; 212].
